@@ -306,6 +306,14 @@ func ResetCover(p *Prog, entries []*ssa.Function, maxDepth int) (*chainSet, map[
 				if !ok {
 					continue
 				}
+				// Reset()/reset() invoked through an interface on a field of
+				// the object (c.columnBuffer.Reset()): the content behind that
+				// reference is re-established
+				if cc := call.Common(); cc.IsInvoke() && (cc.Method.Name() == "Reset" || cc.Method.Name() == "reset") {
+					if ch, ok := resolve(cc.Value); ok && len(ch) > 0 {
+						set.add(chainWrite{Chain: ch, Kind: EffCall, Pos: call.Pos(), Fn: fn})
+					}
+				}
 				callee := call.Common().StaticCallee()
 				if callee == nil || callee.Blocks == nil || !inModule(callee) {
 					continue
